@@ -165,6 +165,14 @@ def keepdims_wrapper(a_callable):
 
         return r
 
+    # ``wraps`` copies NumPy's ``__module__``/``__qualname__``, under which pickle
+    # finds the *unwrapped* NumPy function, so the wrapper was pickled by value:
+    # an unpickled copy is a new function object with a new token, and every
+    # name derived from it (arg-reduction chunk/combine/aggregate layers) changed
+    # across a pickle round trip.  Point it at this module, where the wrappers
+    # live under the wrapped function's name.
+    keepdims_wrapped_callable.__module__ = __name__
+    keepdims_wrapped_callable.__qualname__ = a_callable.__name__
     return keepdims_wrapped_callable
 
 
